@@ -68,8 +68,47 @@ class HistoryMonitor(Monitor):
         self._classify_handlers(ctx)
         self._find_cell_systems(ctx)
         self._sampling_setup(ctx)
+        self._activation_setup(ctx)
         self.check_composites(ctx, snap, (0.0, 0.0), "initial state")
         self.check_box(ctx, snap)
+
+    def _activation_setup(self, ctx):
+        """Harness-side model of which taggers are activated (C09): every tagger starts activated; after an event of
+        tagger T the tags in T's `activate` list are activated, then those in its `deactivate` list deactivated (lists
+        read from the configuration text).  The generator a tagger had right after construction - before anything
+        was deactivated - is kept as the "from scratch" generator, so that the oracle does not depend on the
+        activate()/deactivate() bookkeeping under test."""
+        self.tag_active = {}
+        self.tag_lists = {}
+        self.fresh_gen = {}
+        sections = {}
+        for section in ctx.config.sections():
+            sections[section.lower().replace("_", "")] = section
+        for tagger in ctx.taggers:
+            self.tag_active[tagger.tag] = True
+            self.fresh_gen[id(tagger)] = tagger.yield_identifiers_send_event_time
+            section = sections.get(tagger.tag.lower().replace("_", ""))
+            lists = ([], [])
+            if section is not None:
+                def read(option):
+                    if not ctx.config.has_option(section, option):
+                        return []
+                    return [x.strip() for x in ctx.config.get(section, option).replace("\n", " ").split(",")
+                            if x.strip()]
+                lists = (read("activate"), read("deactivate"))
+            self.tag_lists[tagger.tag] = lists
+        for tagger in ctx.taggers:
+            if any(self.kind.get(id(h)) == "start_of_run" for h in tagger.get_event_handlers()):
+                self._apply_activation(tagger.tag)       # applied before the first leg of the run
+
+    def _apply_activation(self, tag):
+        on, off = self.tag_lists.get(tag, ([], []))
+        for t in on:
+            if t in self.tag_active:
+                self.tag_active[t] = True
+        for t in off:
+            if t in self.tag_active:
+                self.tag_active[t] = False
 
     def _classify_handlers(self, ctx):
         from jellyfysh.event_handler.abstracts.abstracts import SingleActiveLeafUnitEventHandler
@@ -201,6 +240,9 @@ class HistoryMonitor(Monitor):
         self.committed_classes[handler.__class__.__name__.split(" ")[0]] += 1
         self.stats["commits"] += 1
         self.stats["commit/" + kind] += 1
+        tg = ctx.tagger_of.get(id(handler))
+        if tg is not None:
+            self._apply_activation(tg.tag)
         if kind == "end_of_chain":
             self.eoc_count += 1
         # C13 (run part): nothing changed the global state between two commits
@@ -386,7 +428,11 @@ class HistoryMonitor(Monitor):
             handlers = tagger.get_event_handlers()
             if any(self.kind.get(id(h)) == "start_of_run" for h in handlers):
                 continue
-            fresh = list(tagger.yield_identifiers_send_event_time(active))
+            if self.tag_active.get(tagger.tag, True):
+                fresh = list(self.fresh_gen[id(tagger)](active))
+            else:
+                fresh = []
+                self.stats["deactivated_tagger_observations"] += 1
             have = by_tagger.get(id(tagger), [])
             if isinstance(tagger, (NoInStateTagger, ActiveGlobalStateInStateTagger, ActiveRootUnitInStateTagger)):
                 if len(fresh) != len(have):
